@@ -81,6 +81,24 @@ def rule_r1(chk, prog, effects):
                 if isinstance(c, ast.Call) and call_name(c) == 'open' and \
                         c.args and unparse(c.args[0]) == unparse(src):
                     good_with = w
+                # os.fdopen(fd, 'w') with fd = os.open(tmp, O_WRONLY |
+                # O_CREAT | O_TRUNC ..): the same file object
+                if isinstance(c, ast.Call) and call_name(c) in (
+                        'os.fdopen', 'open', 'io.open') and c.args and \
+                        isinstance(c.args[0], ast.Name):
+                    from ..astutil import resolve_near
+                    d = resolve_near(f, c.args[0], c)
+                    if isinstance(d, ast.Call) and call_name(
+                            d) == 'os.open' and d.args and unparse(
+                                d.args[0]) == unparse(src):
+                        fl = d.args[1] if len(d.args) > 1 else None
+                        if isinstance(fl, ast.Name) and len(m.globals.get(
+                                fl.id, [])) == 1:
+                            fl = m.globals[fl.id][0]
+                        ft = unparse(fl) if fl is not None else ''
+                        if all(k in ft for k in ('O_WRONLY', 'O_CREAT',
+                                                 'O_TRUNC')):
+                            good_with = w
         okw = good_with is not None
         inside = False
         if okw:
